@@ -186,6 +186,8 @@ def _tok(lines, **kw):
 
 EDGE = {
     'top-line': [b'65529 PRINT "top"'],
+    # an ASCII listing of 69 kB (more than the 65534 bytes of BASIC memory) whose tokenised form is 25 kB
+    'listing-larger-than-memory': [b'%d ' % (10 * k) + b':'.join([b'PRINT'] * 40) for k in range(1, 291)],
     'long-rem': [b'10 REM ' + b'x' * 248, b'20 PRINT "' + b'y' * 240 + b'"'],
     'high-bytes': [b'10 PRINT "\x80\xfe\xff\xe9":REM \xff\x81\x9b', b"20 ' \xfd\x01\x02"],
     'eof-byte-in-text': [b'10 PRINT "a\x1ab"', b'20 REM a\x1ab'],
@@ -593,6 +595,73 @@ def convert_program(part, bench, group, name, kind, payload):
                 if how == 'link':
                     os.remove(opath)
             part.classes.add('convert|%s|%s>%s' % (group, infmt.decode(), mode.decode()))
+            # the same conversion as a filter: the input file on standard input, the result on standard output
+            part.n += 1
+            part.traces += 1
+            from pcbasic.compat import stdio
+            keep = stdio.stdin, stdio.stdout
+            fake_out = _FakeStdout()
+            stdio.stdin, stdio.stdout = _FakeStdin(open(inpath, 'rb').read()), fake_out
+            try:
+                main_mod.main('--convert=%s' % mode_arg)
+            except SystemExit:
+                pass
+            except Exception as e:
+                if from_pcbasic(e):
+                    part.violation('convert/host-exception/%s/filter' % type(e).__name__,
+                                   '%s: --convert=%s as a filter raised %r' % (name, mode.decode(), e), dict(case, filter=True))
+                    continue
+                raise
+            finally:
+                stdio.stdin, stdio.stdout = keep
+            got = fake_out.buffer.getvalue()
+            if got != ref:
+                n = min(len(got), len(ref))
+                first = next((i for i in range(n) if got[i] != ref[i]), n)
+                part.violation('convert/filter-differs/%s-to-%s' % (infmt.decode(), mode.decode()),
+                               '%s: --convert=%s with the %s file on standard input writes %d bytes to standard output, '
+                               'LOAD+SAVE in a Session %d bytes; first difference at offset %d'
+                               % (name, mode.decode(), infmt.decode(), len(got), len(ref), first), dict(case, filter=True))
+            part.classes.add('convert-filter|%s|%s>%s' % ('large' if name == 'listing-larger-than-memory' else 'small',
+                                                            infmt.decode(), mode.decode()))
+
+
+class _FakeStdin(object):
+    """Standard input that is a file (not a terminal) holding `data`."""
+
+    def __init__(self, data):
+        self.buffer = io.BytesIO(data)
+        self.closed = False
+        self.name = '<stdin>'
+        self.encoding = 'utf-8'
+
+    def isatty(self):
+        return False
+
+    def read(self, num=-1):
+        return ''
+
+    def readline(self):
+        return ''
+
+
+class _FakeStdout(object):
+    """Standard output that is a file: bytes through .buffer are kept, text (echoed messages) is dropped."""
+
+    def __init__(self):
+        self.buffer = KeepBytesIO()
+        self.closed = False
+        self.name = '<stdout>'
+        self.encoding = 'utf-8'
+
+    def isatty(self):
+        return False
+
+    def write(self, text):
+        return len(text)
+
+    def flush(self):
+        pass
 
 
 def from_pcbasic(e):
@@ -644,9 +713,11 @@ def work_convert(shard):
 def convert_family(quick):
     fam = [p for p in edge_programs() if p[1] in (
         'high-bytes', 'number-classes', 'special-tokens', 'beyond-65529', 'corpus-ascii', 'corpus-tokens',
-        'corpus-protected', 'sixty-lines', 'eof-byte-in-text', 'embedded-nul-eof', 'empty', 'long-rem')]
+        'corpus-protected', 'sixty-lines', 'eof-byte-in-text', 'embedded-nul-eof', 'empty', 'long-rem',
+        'listing-larger-than-memory')]
     if quick:
-        fam = [p for p in fam if p[1] in ('number-classes', 'special-tokens', 'beyond-65529', 'corpus-protected')]
+        fam = [p for p in fam if p[1] in ('number-classes', 'special-tokens', 'beyond-65529', 'corpus-protected',
+                                          'listing-larger-than-memory')]
     else:
         fam += grammar_programs(['n3'])[::25]
     return fam
